@@ -238,3 +238,43 @@ Proof.
   - now apply tree_parentb_sound.
   - intros i Hi. rewrite forallb_forall in H2. apply H2 in Hi. apply andb_true_iff in Hi. destruct Hi as [Ha Hb]. apply Z.leb_le in Ha. apply Z.ltb_lt in Hb. lia.
 Qed.
+
+(* ------------------------------------------------------------------ which indices the segment view answers.
+   m.segments[k] for ANY integer k (negative indices wrap on the index table, as numpy does): whenever it answers, the
+   answer is the segment of a NON-ROOT vertex, with that vertex's row and its parent's row as end points.  In
+   particular the root never gets a segment, and k = -1, k >= n-1, k < -n are refused (IndexError). *)
+Lemma pyget_In : forall (A : Type) (l : list A) k x, pyget l k = Some x -> In x l.
+Proof.
+  intros A l k x H. unfold pyget in H. destruct (pynorm (zlen l) k) as [j|]; [|discriminate].
+  eapply nth_error_In; eauto.
+Qed.
+
+Theorem view_answers_only_non_root : forall (V : Type) (m : amorph V),
+    no_floating V m = true -> valid_morphology V m = true ->
+    tree_parent (am_conn m) -> root_index (am_conn m) = Some 0 ->
+    forall k s, segment_at V m k = Some s ->
+      In (sg_id s) (non_root_vertices (am_conn m)) /\ expected_segment V m (sg_id s) = Some s.
+Proof.
+  intros V m Hnf Hvalid Htree Hroot k s Hs.
+  assert (Hur : unique_root (am_conn m) 0).
+  { destruct Htree as [[r Hr] _]. pose proof (root_index_unique _ _ Hr). assert (r = 0) by congruence. now subst. }
+  destruct (no_floating_spec V m Hnf) as [Hm1 Hm2].
+  pose proof Hvalid as Hvalid'. unfold valid_morphology in Hvalid'. apply Nat.eqb_eq in Hvalid'.
+  unfold segment_at, vertex_index_from_segment_index in Hs.
+  rewrite where_false_all in Hs by auto. rewrite <- zrange_shift in Hs.
+  destruct (pyget (zrange (0 + 1) (length (am_mask m))) k) as [v|] eqn:Ev; [|discriminate].
+  apply pyget_In in Ev. apply in_zrange in Ev.
+  assert (Hid : sg_id s = v).
+  { unfold segment_from_vertex_index in Hs.
+    destruct (pyget (am_conn m) v); [|discriminate].
+    destruct (pyget (am_vertices m) v); [|discriminate].
+    destruct (pyget (am_vertices m) z); [|discriminate]. inversion Hs. reflexivity. }
+  assert (Hv : 1 <= v < zlen (am_conn m)).
+  { split; [lia|]. unfold segment_from_vertex_index in Hs.
+    destruct (pyget (am_conn m) v) eqn:E; [|discriminate].
+    rewrite pyget_nonneg in E by lia. apply zget_Some_range in E. lia. }
+  destruct (segment_is_expected V m v Hvalid Htree Hur Hv) as [p [nv [pv [H1 [H2 [H3 [H4 [H5 H6]]]]]]]].
+  rewrite Hid. split.
+  - rewrite (non_root_vertices_rooted_at_0 _ Hur). apply in_zrange. unfold zlen in *. lia.
+  - rewrite <- H5. exact Hs.
+Qed.
